@@ -28,6 +28,7 @@ type utxoMap map[btc.TxPrevOut]*coin
 
 // cand is a parsed candidate block plus its context.
 type cand struct {
+	raw            []byte // the candidate's bytes
 	hash           []byte
 	height         uint32
 	time, mtp      uint32
